@@ -237,7 +237,9 @@ def _decide_verus_unit(unit, tier, workdir, W, seed):
     try:
         main = run_verus(unit, workdir)
     except Infra as e:
-        if "time-out" in str(e):
+        # time-out, lost anchor (the code was restructured) or a construct the verifier rejects: undecided.
+        # If the unit has an executable postcondition, the search on the real code may still decide it.
+        if "time-out" in str(e) or "EXTRACTION-LOST" in str(e) or "verus rejected the extracted text" in str(e):
             raise Undecided(str(e))
         raise
     rep = main["report"]
